@@ -44,14 +44,13 @@ def jobs(tier):
                 continue
             prog = [['gen', q] for q in places]
             J.append(dict(harness=H, params=dict(N=N, prog=prog), timeout_s=300))
-    # packing lemma (structure only): all placement shapes
-    P = ('circuits', 'h_packing')
-    for N in (2, 3):
-        for n_g in (1, 2, 3, 4):
-            for places in itertools.product(tuples(N), repeat=n_g):
-                J.append(dict(harness=P, params=dict(N=N, placements=[list(q) for q in places]), cost=0.1))
-    for places in itertools.product(tuples(4, 2), repeat=4):
-        J.append(dict(harness=P, params=dict(N=4, placements=[list(q) for q in places]), cost=0.1))
+    # packing lemma (structure only): all placement shapes, for both circuit classes
+    P = ('circuits', 'h_packing_all')
+    for cls in ('CliffordCircuit', 'Circuit'):
+        for N in (2, 3):
+            for n_g in (1, 2, 3, 4):
+                J.append(dict(harness=P, params=dict(N=N, n_ops=n_g, cls=cls), cost=3 * n_g))
+        J.append(dict(harness=P, params=dict(N=4, n_ops=4, cls=cls, kmax=2), cost=30))
     # compiled configurations
     progs = []
     for N in (2, 3):
